@@ -6,6 +6,7 @@ From AGH Require Import Model.ScheduleText Proofs.ScheduleText Proofs.DurationTe
 From AGH Require Import Model.BlockedSvcHttp Proofs.BlockedSvcHttp.
 From AGH Require Import Model.BlockedSvcClient Proofs.BlockedSvcClient.
 From AGH Require Import Model.ScheduleZone Proofs.ScheduleZone.
+From AGH Require Import Model.BlockedSvcPersist Proofs.BlockedSvcPersist.
 Local Open Scope Z_scope.
 
 (** For every zone (any offset function), instant and schedule: in effect
@@ -708,3 +709,138 @@ Example C18_zone_names_example :
   load_location (fun _ => true) (cons 47%N (cons 85%N (cons 84%N (cons 67%N nil)))) = None.
 Proof. exact ex_zone_names. Qed.
 Print Assumptions C18_zone_names_example.
+
+(** * Round 6: accepted request -> ConfigModified -> file -> restart
+
+    [ylife] = the stored value + the blocked_services section of the
+    configuration file; [ystep] = a handler as the code orders it now (store
+    under the lock, then the callback, which reads the stored value through
+    WriteDiskConfig and writes it as YAML); [yrestart] = the file decoded and
+    handed to filtering.New; [yrun] = a history of requests and restarts
+    ([None]: some restart was refused).  [good tz l] = the file is the YAML
+    of the stored value, which has seven validated ranges in a zone that
+    loads as itself in [tz]; [lop_zone_ok] = the LoadLocation oracle of the
+    update documents answers as [tz] does. *)
+
+(** Invariant: after every history the file holds exactly the stored value
+    and reads back as it. *)
+Theorem C18_persisted_is_memory : forall tz known ops l l',
+  good tz l -> Forall (lop_zone_ok tz) ops -> yrun tz known l ops = Some l' ->
+  lf_disk l' = save_yaml (lf_mem l') /\ load_yaml tz (lf_disk l') = Some (lf_mem l').
+Proof. exact yrun_persisted_loads. Qed.
+Print Assumptions C18_persisted_is_memory.
+
+Theorem C18_accepted_request_is_persisted : forall tz known o l,
+  good tz l -> op_zone_ok tz o -> good tz (snd (ystep known o l)).
+Proof. exact ystep_good. Qed.
+Print Assumptions C18_accepted_request_is_persisted.
+
+(** A request that is not answered 200 changes neither. *)
+Theorem C18_rejected_request_changes_neither : forall known o l,
+  fst (ystep known o l) <> st_ok -> snd (ystep known o l) = l.
+Proof. exact ystep_rejected_noop. Qed.
+Print Assumptions C18_rejected_request_changes_neither.
+
+(** A restart is the identity when the stored ids are in the service table
+    and is refused otherwise (ids outside the table come only from the
+    deprecated set endpoint). *)
+Theorem C18_restart_is_identity_or_refused : forall tz known l,
+  good tz l ->
+  yrestart tz known l = if ids_known known (bs_ids (lf_mem l)) then Some l else None.
+Proof. exact restart_good. Qed.
+Print Assumptions C18_restart_is_identity_or_refused.
+
+Theorem C18_restart_refused_iff_unknown_id : forall tz known l,
+  good tz l -> (yrestart tz known l = None <-> ids_known known (bs_ids (lf_mem l)) = false).
+Proof. exact restart_refused_iff. Qed.
+Print Assumptions C18_restart_refused_iff_unknown_id.
+
+(** GET, the verdict at every instant in every zone, and the services
+    blocked are unchanged by a restart. *)
+Theorem C18_restart_keeps_verdict : forall tz known l l',
+  good tz l -> yrestart tz known l = Some l' ->
+  get (lf_mem l') = get (lf_mem l) /\
+  (forall off t, contains (sc_days (bs_sched (lf_mem l'))) off t =
+                 contains (sc_days (bs_sched (lf_mem l))) off t) /\
+  (forall paused, apply known (lf_mem l') paused = apply known (lf_mem l) paused).
+Proof. exact restart_keeps_verdict. Qed.
+Print Assumptions C18_restart_keeps_verdict.
+
+(** Restarts are invisible in the stored value. *)
+Theorem C18_restart_transparent : forall tz known ops l l',
+  good tz l -> Forall (lop_zone_ok tz) ops -> yrun tz known l ops = Some l' ->
+  lf_mem l' = run known (lf_mem l) (reqs_of ops).
+Proof. exact restart_transparent. Qed.
+Print Assumptions C18_restart_transparent.
+
+(** After any history of updates, legacy sets, gets and restarts the
+    schedule (zone and bounds) is the one of the last accepted update, the
+    file reads back as the stored value, the pause is in effect exactly per
+    the wall clock of the ranges that update asked for, and when nothing
+    else was accepted since, the id list is that update's. *)
+Theorem C18_restart_keeps_last_update : forall tz known l ops1 sch ids sc ops2 l',
+  good tz l -> Forall (lop_zone_ok tz) (ops1 ++ LReq (OUpdate sch ids) :: ops2) ->
+  update_accepted known sch ids sc -> no_accepted_update known (reqs_of ops2) ->
+  yrun tz known l (ops1 ++ LReq (OUpdate sch ids) :: ops2) = Some l' ->
+  bs_sched (lf_mem l') = sc /\
+  load_yaml tz (lf_disk l') = Some (lf_mem l') /\
+  (forall off t, contains (sc_days (bs_sched (lf_mem l'))) off t = true <-> in_effect (sc_days sc) off t) /\
+  (quiet known (reqs_of ops2) -> lf_mem l' = {| bs_ids := ids; bs_sched := sc |}).
+Proof. exact restart_keeps_last_update. Qed.
+Print Assumptions C18_restart_keeps_last_update.
+
+(** The oracle premise holds for every update document whose zone verdict
+    comes from the database. *)
+Theorem C18_update_zone_oracle_ok : forall tz d ids,
+  op_zone_ok tz (OUpdate (Some (sched_doc_of tz d)) ids).
+Proof. exact sched_doc_of_zone_ok. Qed.
+Print Assumptions C18_update_zone_oracle_ok.
+
+(** The callback in front of the store (seeded change C18-L): invisible as
+    long as there is no restart ... *)
+Theorem C18_callback_order_invisible_without_restart : forall ord tz known ops l,
+  (forall o, In o ops -> o <> LRestart) ->
+  option_map lf_mem (yrun_ord tz ord known l ops) = Some (run known (lf_mem l) (reqs_of ops)).
+Proof. exact order_invisible_without_restart. Qed.
+Print Assumptions C18_callback_order_invisible_without_restart.
+
+(** ... and refuted by the seed's sequence: update (no pause), update (whole
+    week paused, Asia/Kolkata), restart. *)
+Theorem C18_callback_before_store_refuted :
+  let tz := fun _ : bytes => true in
+  let known := cons l_svc nil in
+  let kolkata := fun _ : Z => 19800 in
+  (exists l', yrun tz known (ylife_init l_init) l_history = Some l' /\
+              bs_sched (lf_mem l') = l_sched_full /\
+              contains (sc_days (bs_sched (lf_mem l'))) kolkata 0 = true /\
+              apply known (lf_mem l') (contains (sc_days (bs_sched (lf_mem l'))) kolkata 0) = nil) /\
+  (exists l', yrun_ord tz callback_first_order known (ylife_init l_init) l_history = Some l' /\
+              bs_sched (lf_mem l') <> l_sched_full /\
+              in_effect (sc_days l_sched_full) kolkata 0 /\
+              contains (sc_days (bs_sched (lf_mem l'))) kolkata 0 = false /\
+              apply known (lf_mem l') (contains (sc_days (bs_sched (lf_mem l'))) kolkata 0) = cons l_svc nil).
+Proof. exact callback_first_refuted. Qed.
+Print Assumptions C18_callback_before_store_refuted.
+
+(** Non-vacuity: the premises of the theorems above hold for the seed's
+    history and for a state with a Monday range and a known id. *)
+Example C18_restart_premises_satisfiable :
+  good (fun _ => true) (ylife_init l_init) /\ Forall (lop_zone_ok (fun _ => true)) l_history /\
+  update_accepted (cons l_svc nil) (Some l_doc_full) (cons l_svc nil) l_sched_full /\
+  no_accepted_update (cons l_svc nil) (reqs_of (cons LRestart nil)).
+Proof. exact l_premises. Qed.
+Print Assumptions C18_restart_premises_satisfiable.
+
+Example C18_restart_example :
+  let tz := fun _ : bytes => true in
+  let m := {| bs_ids := cons (cons 97%N nil) nil; bs_sched := ex_sched |} in
+  good tz (ylife_init m) /\
+  yrestart tz ex_known (ylife_init m) = Some (ylife_init m) /\
+  yrun tz ex_known (ylife_init m) (cons (LReq (OSet (cons (cons 120%N nil) nil))) (cons LRestart nil)) = None /\
+  (exists l', yrun tz ex_known (ylife_init m)
+                (cons (LReq (OUpdate (Some ex_doc) (cons (cons 98%N nil) nil)))
+                   (cons LRestart (cons (LReq (OSet (cons (cons 97%N nil) nil)))
+                      (cons LRestart (cons (LReq OGet) nil)))))
+              = Some l' /\ lf_mem l' = {| bs_ids := cons (cons 97%N nil) nil; bs_sched := ex_sched |}).
+Proof. exact ex_persist. Qed.
+Print Assumptions C18_restart_example.
